@@ -109,36 +109,36 @@ theorem C04_watch_only (cfg : Cfg) (hd : HD K P) (s : State K P) (hw : s.mem.wat
 -- counter-examples on the configurations with the defects, and non-vacuity
 
 /-- a concrete `HD` (keys are derivation paths) used for the examples -/
-def demoHD : HD (List Nat) (List Nat) :=
+def demoHD04 : HD (List Nat) (List Nat) :=
   { child := fun k i => some (k ++ [i]), neuter := id, pubChild := fun p i => some (p ++ [i]) }
 
-def demoImportScript : List (Op (List Nat) (List Nat)) :=
+def demo04ImportScript : List (Op (List Nat) (List Nat)) :=
   [.create [0], .unlock 0, .importScript (84, 0) 1 0 true 1]
 
 /-- **Defect O1 (official tree).**  With the script crypto key left all-zero, importing a secret script after
     unlocking writes a row from which the script can be read without any passphrase. -/
 theorem C04_zero_key_counterexample :
-    ((run { o1 := true } demoHD demoImportScript).2.any Row.exposesSecret) = true := by decide
+    ((run { o1 := true } demoHD04 demo04ImportScript).2.any Row.exposesSecret) = true := by decide
 
 /-- the same history is clean once `Unlock` restores the script key (instance of `C04_no_plain_secret`) -/
-example : ((run {} demoHD demoImportScript).2.any Row.exposesSecret) = false := by decide
+example : ((run {} demoHD04 demo04ImportScript).2.any Row.exposesSecret) = false := by decide
 
-def demoTaproot : List (Op (List Nat) (List Nat)) :=
+def demo04Taproot : List (Op (List Nat) (List Nat)) :=
   [.create [0], .unlock 0, .importScript (86, 0) 1 2 true 1, .convertWO, .restart]
 
 /-- **Defect (official tree): secret taproot script rows survive `ConvertToWatchingOnly`.** -/
 theorem C04_taproot_row_counterexample :
-    ((run { t1 := true } demoHD demoTaproot).1.disk.scopes.any fun e =>
+    ((run { t1 := true } demoHD04 demo04Taproot).1.disk.scopes.any fun e =>
       e.2.addrs.any fun a => match a.2 with | .scr _ _ true (some _) => true | _ => false) = true := by decide
 
-example : ((run {} demoHD demoTaproot).1.disk.scopes.any fun e =>
+example : ((run {} demoHD04 demo04Taproot).1.disk.scopes.any fun e =>
       e.2.addrs.any fun a => match a.2 with | .scr _ _ true (some _) => true | _ => false) = false := by decide
 
 /-- non-vacuity of `C04_watch_only`: a reachable unlocked state with imported key, script and issued addresses -/
-example : (run {} demoHD [.create [0], .unlock 0, .next (84, 0) 0 2 false 1, .importPriv (84, 0) 7 true 5,
+example : (run {} demoHD04 [.create [0], .unlock 0, .next (84, 0) 0 2 false 1, .importPriv (84, 0) 7 true 5,
     .importScript (84, 0) 1 1 true 6]).1.mem.watchOnly = false := by decide
 
 /-- the write stream of a history is not empty (the theorems above are not about an empty list) -/
-example : 20 < (run {} demoHD demoImportScript).2.length := by decide
+example : 20 < (run {} demoHD04 demo04ImportScript).2.length := by decide
 
 end AddrDerive
